@@ -185,7 +185,7 @@ def fam_comp(full):
     yield "x = [[t('e', (a, b)) for b in t('inner', [1, 2])] for a in t('outer', [3, 4])]"
     # scope: loop variable does not leak, outer variable restored
     yield "v = 'outer'\nx = [v for v in t('i', [1, 2])]\ny = v"
-    yield "x = [v for v in t('i', [1, 2])]\ny = 'v' in dir()"
+    yield "x = [v for v in t('i', [1, 2])]\ny = 'v' in globals()"
     yield "v = 'outer'\nx = [v for v in t('i', [])]\ny = v"
     yield "v = 'outer'\nx = {v: 1 for v in t('i', [1])}\ny = v"
     yield "v = 'outer'\nx = {v for v in t('i', [1])}\ny = v"
@@ -272,7 +272,7 @@ def fam_assign(full):
     yield "a: int = t('r', 1)"
     yield "a: t('ann', int) = t('r', 1)"
     yield "a: int"
-    yield "a: int\nx = 'a' in dir()"
+    yield "a: int\nx = 'a' in globals()"
     yield "o = O()\no.x: int = t('r', 3)"
     yield "a = [1]\na[t('i', 0)]: int = t('r', 3)"
     yield "x = y = z = t('r', 0)"
@@ -335,9 +335,9 @@ def fam_augassign(full):
 
 
 def fam_delete(full):
-    yield "a = 1\ndel a\nx = 'a' in dir()"
+    yield "a = 1\ndel a\nx = 'a' in globals()"
     yield "del a"
-    yield "a = 1\nb = 2\ndel a, b\nx = dir() == []"
+    yield "a = 1\nb = 2\ndel a, b\nx = ('a' in globals(), 'b' in globals())"
     yield "a = 1\nb = 2\ndel (a, b)"
     yield "a = 1\nb = 2\ndel [a, b]"
     yield "a = 1\ndel a\ndel a"
